@@ -29,6 +29,8 @@ ASSUMPTIONS = [
     "assigned values are clearly valid (deviation < 1e-9) or clearly invalid (> 1e-3 off); nothing is asserted in between",
     "symbolic entries are bare symbols; amplitudes are read through the public __getitem__/__len__",
     "assigning a symbol into a purely numeric (numpy-backed) wavefunction may be refused with any exception (object unchanged) or accepted",
+    "slice assignment of a flat list is required to be accepted only for wavefunctions created from numbers (flat numpy vector); "
+    "for vectors that were created symbolic or produced by bind (sympy column / (N,1) array) a refusal with the object unchanged is accepted too - the statement promises validity, not acceptance",
 ]
 
 SYMS = ["a", "b", "c", "d"]
@@ -64,6 +66,12 @@ def _numeric_mass(model, skip=None):
     return sum(abs(complex(x)) ** 2 for j, x in enumerate(model) if j != skip and not _is_sym(x))
 
 
+def _dicke_model(n, k):
+    idx = [i for i in range(2 ** n) if bin(i).count("1") == k]
+    amp = 1 / math.sqrt(len(idx))
+    return [complex(amp) if i in idx else 0j for i in range(2 ** n)]
+
+
 def machine(on_end, expired):
     from orquestra.quantum.wavefunction import Wavefunction
 
@@ -75,6 +83,8 @@ def machine(on_end, expired):
             self.wf = None
             self.model = None
             self.seq = []
+            self.ctor = None
+            self.column = False  # the vector is a sympy column / (N, 1) array (created symbolic, or bound)
 
         # -- helpers
         def _note(self, kind):
@@ -107,10 +117,23 @@ def machine(on_end, expired):
         # -- rules
         @initialize(n=st.integers(1, 3), seed=st.integers(0, 10 ** 6),
                     sym=st.lists(st.tuples(st.integers(0, 7), st.sampled_from(SYMS)), max_size=4),
-                    as_list=st.booleans())
-        def init(self, n, seed, sym, as_list):
+                    as_list=st.booleans(), ctor=st.sampled_from(["vector", "vector", "vector", "dicke", "zero"]))
+        def init(self, n, seed, sym, as_list, ctor="vector"):
             def go():
                 N = 2 ** n
+                if ctor == "dicke":
+                    k = seed % (n + 1)
+                    self.wf = must(lambda: Wavefunction.dicke_state(n, k), "dicke_state")
+                    self.model = _dicke_model(n, k)
+                    self.ctor = ("dicke", n, k)
+                    self.info["classes"].add("from_dicke_state")
+                    return
+                if ctor == "zero":
+                    self.wf = must(lambda: Wavefunction.zero_state(n), "zero_state")
+                    self.model = [1 + 0j] + [0j] * (N - 1)
+                    self.ctor = ("zero", n, 0)
+                    self.info["classes"].add("from_zero_state")
+                    return
                 rs = np.random.RandomState(seed)
                 v = rs.normal(size=N) + 1j * rs.normal(size=N)
                 v = v / np.linalg.norm(v)
@@ -121,8 +144,85 @@ def machine(on_end, expired):
                 arg = list(model) if (symbolic or as_list) else np.array(model)
                 self.wf = must(lambda: Wavefunction(arg), "Wavefunction(...)")
                 self.model = model
+                self.column = symbolic  # sympy column matrix: flat lists are refused for slices (shape error)
                 self.info["classes"].add("symbolic" if symbolic else "numeric")
-            self.step("init", {"n": n, "seed": seed, "sym": [list(x) for x in sym], "as_list": as_list}, go)
+            self.step("init", {"n": n, "seed": seed, "sym": [list(x) for x in sym], "as_list": as_list, "ctor": ctor}, go)
+
+        @rule(n=st.integers(1, 3), k=st.integers(0, 3), same=st.booleans())
+        def fresh_constructor(self, n, k, same):
+            """the named constructors keep returning their documented state, whatever happened to
+            wavefunctions they returned earlier"""
+            def go():
+                nn, kk = n, k % (n + 1)
+                kind = "dicke"
+                if same and self.ctor is not None:
+                    kind, nn, kk = self.ctor
+                if kind == "dicke":
+                    w = must(lambda: Wavefunction.dicke_state(nn, kk), "dicke_state")
+                    want = _dicke_model(nn, kk)
+                else:
+                    w = must(lambda: Wavefunction.zero_state(nn), "zero_state")
+                    want = [1 + 0j] + [0j] * (2 ** nn - 1)
+                require(_same(_read(w), want), lambda: f"{kind}_state({nn},{kk}) returned {_read(w)} after earlier wavefunctions were edited; expected {want}")
+                if self.ctor is not None and same and "ok" in self.seq:
+                    self.info["classes"].add("constructor_again_after_edit")
+            self.step("fresh_constructor", {"n": n, "k": k, "same": same}, go)
+
+        @rule(i=st.integers(0, 7), ln=st.integers(1, 4), angle=st.floats(0, 6.28, allow_nan=False), rev=st.booleans())
+        def slice_ok(self, i, ln, angle, rev):
+            def go():
+                if any(_is_sym(x) for x in self.model):
+                    return
+                N = len(self.model)
+                a = i % N
+                b = min(N, a + ln)
+                vals = [x * cmath.exp(1j * angle) for x in self.model[a:b]]
+                if rev:
+                    vals = vals[::-1]
+                if self.column:
+                    # a fully bound wavefunction holds an (N, 1) column: numpy refuses a flat list for
+                    # a slice of it (shape error). The statement does not promise that every valid
+                    # assignment is accepted, only that the object stays valid and unchanged.
+                    before = _read(self.wf)
+                    try:
+                        self.wf[a:b] = vals
+                    except Exception:  # noqa: BLE001
+                        self._unchanged(before, "refused slice assignment on a bound (column) vector")
+                        self.info["classes"].add("slice_refused_on_bound_column")
+                        return
+                else:
+                    must(lambda: self.wf.__setitem__(slice(a, b), vals), "norm-preserving slice assignment")
+                self.model[a:b] = [complex(x) for x in vals]
+                self._note("ok")
+                self.info["classes"].add("slice_assignment")
+            self.step("slice_ok", {"i": i, "ln": ln, "angle": angle, "rev": rev}, go)
+
+        @rule(i=st.integers(0, 7), ln=st.integers(1, 4), mag=st.sampled_from([1.5, -2.0, 0.9]))
+        def slice_break(self, i, ln, mag):
+            def go():
+                if any(_is_sym(x) for x in self.model):
+                    return
+                N = len(self.model)
+                a = i % N
+                b = min(N, a + ln)
+                vals = [mag] * (b - a)
+                tot = _numeric_mass(self.model) - sum(abs(x) ** 2 for x in self.model[a:b]) + sum(abs(x) ** 2 for x in vals)
+                if abs(tot - 1) <= 1e-3:
+                    return
+                before = _read(self.wf)
+                if self.column:
+                    try:
+                        self.wf[a:b] = vals
+                    except Exception:  # noqa: BLE001 - shape error or normalisation error, see slice_ok
+                        pass
+                    else:
+                        raise Violation(f"slice assignment of {vals} (total probability {tot}) was accepted")
+                else:
+                    must_raise(ValueError, lambda: self.wf.__setitem__(slice(a, b), vals), f"slice assignment of {vals} (total probability {tot})")
+                self._unchanged(before, "breaking slice assignment")
+                self._note("rej")
+                self.info["classes"].add("slice_assignment")
+            self.step("slice_break", {"i": i, "ln": ln, "mag": mag}, go)
 
         @rule(i=st.integers(0, 7), angle=st.floats(0, 6.28, allow_nan=False))
         def phase(self, i, angle):
@@ -216,6 +316,8 @@ def machine(on_end, expired):
                 self._unchanged(before, "bind (receiver)")
                 self.wf = w2
                 self.model = [complex(v) if (_is_sym(x) and x == s) else x for x in self.model]
+                if not any(_is_sym(x) for x in self.model):
+                    self.column = True
                 self._note("ok")
                 self.info["classes"].add("bind_partial")
             self.step("bind_partial", {"which": which, "val": val if not isinstance(val, complex) else str(val)}, go)
@@ -239,6 +341,7 @@ def machine(on_end, expired):
                 w2 = must(lambda: self.wf.bind(m), "total bind to a normalised vector")
                 self._unchanged(before, "bind (receiver)")
                 self.wf = w2
+                self.column = True
                 self.model = [complex(amp) if _is_sym(x) else x for x in self.model]
                 self._note("ok")
                 self.info["classes"].add("bind_total")
@@ -394,4 +497,5 @@ SUBCHECKS = [
     SubCheck("save_load", o_io, strategy=io_cases, examples=(150, 600), shards=(1, 4),
              rule="save_wavefunction / load_wavefunction return the same amplitudes"),
 ]
-SUBCHECKS[0].expected_classes = ["symbolic", "numeric", "rejected_then_accepted", "bind_partial", "bind_total", "became_numeric_by_assignment"]
+SUBCHECKS[0].expected_classes = ["symbolic", "numeric", "rejected_then_accepted", "bind_partial", "bind_total", "became_numeric_by_assignment",
+                                  "from_dicke_state", "from_zero_state", "constructor_again_after_edit", "slice_assignment"]
